@@ -204,7 +204,7 @@ class Done:
         self.should_remove_handler = finished
 
 
-@harness(prop="C20", target="geckolib.driver.udp_socket:GeckoUdpSocket._cleanup_handlers",
+@harness(prop="C20", target="geckolib.driver.udp_socket:GeckoUdpSocket._cleanup_handlers", bounded="0..4 registered handlers",
          note="BOUNDED: 0..4 registered handlers, every combination of finished flags")
 def cleanup_removes_exactly_the_finished(n: int, a: bool, b: bool, c: bool, d: bool):
     requires(both(0 <= n, n <= 4))
